@@ -928,6 +928,14 @@ class PositionsMonitor(_monitor_base()):
       try:
         group = eng.apply(e, [action])
       except Exception as ex:
+        # is it the position handling that fails?  A table that cannot take ANY new record (e.g. a
+        # data Ref column whose target table does not exist makes every AddRecord raise) says
+        # nothing about positions: the same record without a position must go in for the failure
+        # to count
+        try:
+          eng.apply(e, [["AddRecord", t, None, {}]])
+        except Exception:
+          return []
         return [("C20.total", {"table": t, "probe_step": i, "action": action, "raised": repr(ex)[:300],
                                "probe": True})]
       after = _table_positions(e, t)
